@@ -840,7 +840,7 @@ func writeEvidence(prop string, cfg propCfg, tier string, seed uint64, a *agg, s
 			"builds":                          kinds,
 			"statement_level_preemption":      stmt,
 			"components_real":                 []string{"spine.DeviceLocal and everything below it (entities, features, function data, subscription/binding/heartbeat managers, senders, event bus), model package, instrumented from the current /repo tree"},
-			"components_stub":                 []string{"SHIP transport (simulated network implementing ShipConnectionDataWriterInterface / driving ShipConnectionDataReaderInterface)", "scripted peers (harness code emitting datagrams built with the repo's model types) where the variant name does not say 'mirror'"},
+			"components_stub":                 []string{"SHIP transport (simulated network implementing ShipConnectionDataWriterInterface / driving ShipConnectionDataReaderInterface)", "scripted peers (harness code emitting datagrams built with the repo's model types); there is no second real node"},
 			"new_violation_signatures":        newViol,
 			"known_findings_hit":              knownHit,
 			"race_report_signatures":          raceSigs,
@@ -868,6 +868,21 @@ func writeEvidence(prop string, cfg propCfg, tier string, seed uint64, a *agg, s
 
 // expectedProbes lists probes that a healthy batch must hit (reported in evidence when zero).
 var expectedProbes = map[string][]string{
-	"C07": {"goaf-calls-overlapped"},
-	"C09": {"bind-granted", "two-bind-requests-for-one-feature-overlapped"},
+	"C01": {"c01-request-checked", "c01-protected-write-bound-true", "c01-protected-write-bound-false"},
+	"C03": {"write-authorised", "write-unauthorised", "write-overlapped-registry-change", "write-notified-subscriber"},
+	"C04": {"c04-write-accepted", "c04-write-rejected", "c04-twin-checked", "c04-protected-element-present", "c04-shape-delete-selector+partial-selector"},
+	"C05": {"c05-mutated-message-handled", "c05-node-management-registry-call", "c05-messages-before-discovery", "c05-probe-read-answered"},
+	"C06": {"c06-add-and-remove-in-one-notification", "c06-remove-unknown-entity", "c06-repeated-announcement"},
+	"C07": {"goaf-calls-overlapped", "c07-discovery-reply-checked", "c07-read-overlapped-tree-change"},
+	"C08": {"fanout-notify-to-subscriber", "reg-server-device-omitted", "duplicate-subscribe-refused"},
+	"C09": {"bind-granted", "two-bind-requests-for-one-feature-overlapped", "reg-server-device-omitted"},
+	"C10": {"teardown-with-state", "approval-verdict-given", "approval-left-pending"},
+	"C11": {"c11-snapshot-verified", "c11-non-persisting-update-checked", "c11-reader-pass"},
+	"C12": {"c12-expect-applied", "c12-expect-error", "verdict-overlapped-timeout", "several-writes-on-one-feature"},
+	"C13": {"c13-overlapping-sends", "c13w-request-from-callback", "c13w-request-withheld", "more-than-64-unanswered-requests", "more-than-100-notifications"},
+	"C14": {"c14-callback-fired-once", "c14-registration-overlapped-arrival", "c14-key-shared-between-peers"},
+	"C15": {"c15-delivery-checked", "c15-subscription-change-overlapped-publish", "c15-unsubscribe-inside-handler"},
+	"C16": {"c16-refresh-observed", "c16-running-span-checked", "c16-stopped-at-end-checked"},
+	"C17": {"c17-api-calls", "c17-approval-callback", "c17-hot-write"},
+	"C20": {"c20-concurrent-entities", "c20-has-checked", "c20-peer-read-checked"},
 }
